@@ -402,6 +402,10 @@ func (s *Store) instantiate(
 
 	// Now all the validation passes, we are safe to mutate memory instances (possibly imported ones).
 	if err = m.applyData(module.DataSection); err != nil {
+		// The element segments applied above may have put functions of this instance into imported tables, where they
+		// stay callable (those writes persist by specification): let the engine finish binding the instance's globals,
+		// memory and tables, which were all allocated before the segments were applied.
+		m.Engine.DoneInstantiation()
 		return nil, err
 	}
 
